@@ -202,7 +202,7 @@ Section SchedProofs.
           -- inversion Hc; subst t' hd' c. split; auto.
           -- destruct (proj2 (r_live _ _ HR t' hd') (ex_intro _ c (conj Hc Hle))) as (H & Hf). auto.
     - (* OverflowError: delete_events, counter reset, insertion with counter 0 *)
-      destruct (delete_events_spec K ltb bot good ltb_asym le_trans_hyp bot_least bot_good
+      destruct (delete_events_spec K ltb bot good ltb_asym le_trans_hyp bot_least
                   (hs_heap s) hd (r_inv _ _ HR))
         as (h1 & Hdel & Hinv1 & Hsz1 & Hmem1).
       rewrite Hdel. cbn [obind].
@@ -327,7 +327,7 @@ Section SchedProofs.
            (ltb t (hs_last s) = false /\ out = OGot hd t /\ hs_last s' = t)))).
   Proof.
     intros s l HR. unfold Sched.hs_get.
-    destruct (root_spec K ltb bot good ltb_asym le_trans_hyp bot_least bot_good
+    destruct (root_spec K ltb bot good ltb_asym le_trans_hyp bot_least
                 (hs_cb K (hs_mvc s)) (hs_heap s) (r_inv _ _ HR))
       as (h' & r & Hroot & Hinv' & Hsz' & Hsub & Hkeep & Hres).
     rewrite Hroot. cbn [obind].
@@ -336,7 +336,7 @@ Section SchedProofs.
       - exact Hinv'.
       - intros e hd He Hhd. apply (r_ctr _ _ HR); auto.
       - intros t hd. rewrite (r_live _ _ HR). split; intros (c & Hc & Hle); exists c; split; auto.
-        apply Hkeep; auto. apply (hs_cb_live _ _ hd eq_refl). exact Hle.
+        apply Hkeep; auto. apply (hs_cb_live (hs_mvc s) (mkE t (Some hd) c) hd eq_refl). exact Hle.
       - rewrite (r_alloc _ _ HR). unfold heap_bytes. rewrite Hsz'. reflexivity.
       - apply HR. }
     destruct Hres as [(Hdead & ->)|(Hin & Hcb & Hhd & Hmin)].
@@ -344,7 +344,7 @@ Section SchedProofs.
       split; [|split; reflexivity].
       intros [t hd] Hx Hf. cbn [fst] in Hf.
       destruct (proj1 (r_live _ _ HR t hd) (conj Hx Hf)) as (c & Hc & Hle).
-      pose proof (Hdead _ Hc) as Hd. apply (hs_cb_live _ _ hd eq_refl) in Hle. congruence.
+      pose proof (Hdead _ Hc) as Hd. apply (hs_cb_live (hs_mvc s) (mkE t (Some hd) c) hd eq_refl) in Hle. congruence.
     - destruct (ehd r) as [hd|] eqn:Ehd; [|congruence].
       pose proof (entry_eta r hd Ehd) as Heta.
       assert (Hlive : (hs_mvc s hd <= ectr r)%N) by (apply (hs_cb_live _ _ hd Ehd); exact Hcb).
@@ -353,7 +353,7 @@ Section SchedProofs.
       assert (Hminl : forall x, In x l -> finite (fst x) -> le (ekey r) (fst x)).
       { intros [t' hd'] Hx Hf. cbn [fst] in *.
         destruct (proj1 (r_live _ _ HR t' hd') (conj Hx Hf)) as (c & Hc & Hle).
-        apply (Hmin _ Hc). apply (hs_cb_live _ _ hd' eq_refl). exact Hle. }
+        apply (Hmin _ Hc). apply (hs_cb_live (hs_mvc s) (mkE t' (Some hd') c) hd' eq_refl). exact Hle. }
       destruct (ltb (ekey r) (hs_last s)) eqn:Eg.
       + eexists _, _. split; [reflexivity|]. split; [apply HR'|]. right.
         exists (ekey r), hd. split; [apply Hrl|]. split; [apply Hrl|]. split; [exact Hminl|].
@@ -382,4 +382,424 @@ Section SchedProofs.
     - apply HR.
   Qed.
 
+  (** ** Runs: all operation sequences *)
+  Definition good_op (o : op K) : Prop := match o with OpPush t _ => good t | _ => True end.
+
+  Lemma rs_run_cons : forall rs o r,
+    rs_run rs (o :: r) =
+    (fst (rs_run (fst (rs_step rs o)) r), snd (rs_step rs o) :: snd (rs_run (fst (rs_step rs o)) r)).
+  Proof.
+    intros rs o r. cbn [Sched.rs_run]. destruct (rs_step rs o) as [s' out]. cbn [fst snd].
+    destruct (rs_run s' r) as [s'' outs]. reflexivity.
+  Qed.
+
+  Lemma ls_run_cons : forall ls o r,
+    ls_run ls (o :: r) =
+    (fst (ls_run (fst (ls_step ls o)) r), snd (ls_step ls o) :: snd (ls_run (fst (ls_step ls o)) r)).
+  Proof.
+    intros ls o r. cbn [Sched.ls_run]. destruct (ls_step ls o) as [s' out]. cbn [fst snd].
+    destruct (ls_run s' r) as [s'' outs]. reflexivity.
+  Qed.
+
+  Lemma rs_get_live : forall rs, rs_live (fst (rs_step rs OpGet)) = rs_live rs.
+  Proof.
+    intros rs. cbn [Sched.rs_step]. destruct (rs_live rs) as [|x r] eqn:E; [cbn; auto|].
+    destruct (guard K ltb (rs_last rs) (fst (list_min x r))); cbn; auto.
+  Qed.
+
+  Lemma R_step : forall s rs o, R s (rs_live rs) -> good_op o ->
+    exists s' out, hs_step s o = Some (s', out) /\ R s' (rs_live (fst (rs_step rs o))).
+  Proof.
+    intros s rs o HR Hg. destruct o as [t hd|hd| | |hd n].
+    - destruct (R_push s _ t hd HR Hg) as (s' & Hp & HR' & _). exists s', ONone. split; [exact Hp|exact HR'].
+    - exists (hs_trash K s hd), ONone. split; [reflexivity|].
+      apply (R_bump s _ hd 1%N HR). lia.
+    - destruct (R_get s _ HR) as (s' & out & Hg' & HR' & _). exists s', out. split; [exact Hg'|].
+      rewrite rs_get_live. exact HR'.
+    - destruct (R_pickle s _ HR) as (s' & Hp & HR' & _). exists s', ONone.
+      split; [cbn [Sched.hs_step]; rewrite Hp; reflexivity|exact HR'].
+    - exists (hs_bump K s hd n), ONone. split; [reflexivity|]. cbn [Sched.rs_step fst rs_live].
+      destruct (N.eqb_spec n 0) as [->|Hn].
+      + apply R_bump0; auto.
+      + apply R_bump; auto. lia.
+  Qed.
+
+  (** No operation sequence makes the model of the C heap touch memory outside its allocation (or an
+      uninitialised cell), loop beyond its fuel, or raise MemoryError; the invariant and the relation
+      to the reference scheduler's live list hold at the end. *)
+  Theorem hs_run_safe : forall ops s rs, R s (rs_live rs) -> Forall good_op ops ->
+    exists s' outs, hs_run s ops = Some (s', outs) /\ R s' (rs_live (fst (rs_run rs ops))) /\
+                    length outs = length ops.
+  Proof.
+    induction ops as [|o r IH]; intros s rs HR Hall.
+    - exists s, []. split; [reflexivity|]. split; [exact HR|reflexivity].
+    - inversion Hall as [|? ? Ho Hr]; subst.
+      destruct (R_step s rs o HR Ho) as (s1 & out & Hstep & HR1).
+      destruct (IH s1 (fst (rs_step rs o)) HR1 Hr) as (s' & outs & Hrun & HR' & Hlen).
+      exists s', (out :: outs). cbn [Sched.hs_run]. rewrite Hstep. cbn [obind]. rewrite Hrun. cbn [obind].
+      split; [reflexivity|]. rewrite rs_run_cons. cbn [fst]. split; [exact HR'|]. cbn; lia.
+  Qed.
+
+  (** ** Agreement of the returned times: HeapScheduler vs RefSched *)
+  Definition out_equiv (a b : outcome K) : Prop :=
+    match a, b with
+    | ONone, ONone => True
+    | OExc e, OExc e' => e = e'
+    | OGot _ k, OGot _ k' => keq k k'
+    | _, _ => False
+    end.
+
+  Record Sim (s : hsched) (rs : rsched) : Prop := {
+    sim_R : R s (rs_live rs);
+    sim_last : keq (hs_last s) (rs_last rs);
+    sim_g1 : good (hs_last s);
+    sim_g2 : good (rs_last rs)
+  }.
+
+  (** protocol for agreement: pushed times are not NaN; a get is only asked when a finite live event exists *)
+  Definition proto (rs : rsched) (o : op K) : Prop :=
+    match o with
+    | OpPush t _ => good t
+    | OpGet => exists x, In x (rs_live rs) /\ finite (fst x)
+    | _ => True
+    end.
+
+  Lemma le_lt_trans : forall a b c, good a -> good b -> good c -> le a b -> ltb b c = true -> ltb a c = true.
+  Proof.
+    intros a b c Ha Hb Hc Hab Hbc. destruct (ltb a c) eqn:E; [reflexivity|].
+    assert (ltb b c = false) by (apply (le_trans_hyp c a b); auto). congruence.
+  Qed.
+
+  Lemma Sim_step : forall s rs o, Sim s rs -> proto rs o ->
+    exists s' out, hs_step s o = Some (s', out) /\ Sim s' (fst (rs_step rs o)) /\
+                   out_equiv out (snd (rs_step rs o)).
+  Proof.
+    intros s rs o HS Hp. destruct HS as [HR Hlast Hg1 Hg2]. destruct o as [t hd|hd| | |hd n].
+    - destruct (R_push s _ t hd HR Hp) as (s' & Hpush & HR' & Hl'). exists s', ONone.
+      split; [exact Hpush|]. split; [|exact I].
+      constructor; cbn [Sched.rs_step fst rs_live rs_last]; auto; rewrite Hl'; auto.
+    - exists (hs_trash K s hd), ONone. split; [reflexivity|]. split; [|exact I].
+      constructor; cbn [Sched.rs_step fst rs_live rs_last hs_trash hs_last]; auto.
+      apply (R_bump s _ hd 1%N HR). lia.
+    - destruct Hp as (f & Hfin & Hff).
+      destruct (R_get s _ HR) as (s' & out & Hget & HR' & Hcase).
+      exists s', out. split; [exact Hget|].
+      destruct Hcase as [(Hnone & _)|(t & hd & Hin & Hft & Hmin & Hout)].
+      { exfalso. apply (Hnone f Hfin Hff). }
+      cbn [Sched.rs_step]. destruct (rs_live rs) as [|x r] eqn:El; [destruct Hin|].
+      pose proof (r_good _ _ HR) as Hgl.
+      destruct (rs_min_spec x r Hgl) as (Hm_in & Hm_min). cbv zeta in *.
+      set (m := list_min x r) in *.
+      assert (Hgm : good (fst m)) by (apply Hgl; exact Hm_in).
+      assert (Hgt : good t) by (apply (Hgl (t, hd)); exact Hin).
+      assert (Hgf : good (fst f)) by (apply Hgl; exact Hfin).
+      assert (Hfm : finite (fst m)).
+      { apply (le_lt_trans (fst m) (fst f) kinf); auto. }
+      assert (Hkeq : keq t (fst m)).
+      { split.
+        - apply (Hm_min (t, hd)). exact Hin.
+        - apply (Hmin m Hm_in Hfm). }
+      assert (Hguard : ltb t (hs_last s) = guard K ltb (rs_last rs) (fst m)).
+      { unfold guard. apply ltb_congr; auto. }
+      destruct Hout as [(Hlt & -> & Hl')|(Hlt & -> & Hl')].
+      + rewrite <- Hguard, Hlt. cbn [fst snd]. split; [|reflexivity].
+        constructor; auto; rewrite ?Hl', ?El; auto.
+      + rewrite <- Hguard, Hlt. cbn [fst snd out_equiv]. split; [|exact Hkeq].
+        constructor; cbn [rs_live rs_last]; rewrite ?Hl', ?El; auto.
+    - destruct (R_pickle s _ HR) as (s' & Hpk & HR' & Hl'). exists s', ONone.
+      split; [cbn [Sched.hs_step]; rewrite Hpk; reflexivity|]. split; [|exact I].
+      constructor; cbn [Sched.rs_step fst rs_live rs_last]; auto; rewrite Hl'; auto.
+    - exists (hs_bump K s hd n), ONone. split; [reflexivity|]. split; [|exact I].
+      constructor; cbn [Sched.rs_step fst rs_live rs_last hs_bump hs_last]; auto.
+      destruct (N.eqb_spec n 0) as [->|Hn].
+      + apply (R_bump0 s _ hd HR).
+      + apply (R_bump s _ hd n HR). lia.
+  Qed.
+
+  Fixpoint proto_run (P : rsched -> op K -> Prop) (rs : rsched) (ops : list (op K)) : Prop :=
+    match ops with
+    | [] => True
+    | o :: r => P rs o /\ proto_run P (fst (rs_step rs o)) r
+    end.
+
+  Theorem heap_refines_ref : forall ops s rs, Sim s rs -> proto_run proto rs ops ->
+    exists s' outs, hs_run s ops = Some (s', outs) /\ Sim s' (fst (rs_run rs ops)) /\
+                    Forall2 out_equiv outs (snd (rs_run rs ops)).
+  Proof.
+    induction ops as [|o r IH]; intros s rs HS Hp.
+    - exists s, []. split; [reflexivity|]. split; [exact HS|constructor].
+    - destruct Hp as (Ho & Hr).
+      destruct (Sim_step s rs o HS Ho) as (s1 & out & Hstep & HS1 & Heq).
+      destruct (IH s1 _ HS1 Hr) as (s' & outs & Hrun & HS' & Hall).
+      exists s', (out :: outs). cbn [Sched.hs_run]. rewrite Hstep. cbn [obind]. rewrite Hrun. cbn [obind].
+      split; [reflexivity|]. rewrite rs_run_cons. cbn [fst snd]. split; [exact HS'|constructor; auto].
+  Qed.
+
+  Lemma Sim_init : Sim (hs_init K bot) (rs_init K bot).
+  Proof. constructor; cbn; auto. - apply R_init. - apply keq_refl; auto. Qed.
+
+  (** ** ListScheduler vs RefSched: identical under "at most one live event per handler" *)
+  Fixpoint uniq (l : list (K * N)) : Prop :=
+    match l with [] => True | x :: r => ~ In (snd x) (map snd r) /\ uniq r end.
+
+  Lemma rs_trash_notin : forall hd (l : list (K * N)), ~ In hd (map snd l) -> rs_trash K hd l = l.
+  Proof.
+    induction l as [|x r IH]; intros H; [reflexivity|]. cbn in *.
+    destruct (N.eqb_spec (snd x) hd) as [E|E]; [exfalso; auto|]. cbn. f_equal. apply IH. tauto.
+  Qed.
+
+  Lemma remove_first_uniq : forall hd (l : list (K * N)), uniq l -> In hd (map snd l) ->
+    remove_first K hd l = Some (rs_trash K hd l).
+  Proof.
+    induction l as [|x r IH]; intros Hu Hin; [destruct Hin|]. cbn in *. destruct Hu as (Hx & Hu).
+    destruct (N.eqb_spec (snd x) hd) as [E|E]; cbn.
+    - subst hd. pose proof (rs_trash_notin (snd x) r Hx) as E'. unfold rs_trash in E'. rewrite E'. reflexivity.
+    - destruct Hin as [Hin|Hin]; [contradiction|]. rewrite (IH Hu Hin). reflexivity.
+  Qed.
+
+  Lemma uniq_snoc : forall (l : list (K * N)) t hd, uniq l -> ~ In hd (map snd l) -> uniq (l ++ [(t, hd)]).
+  Proof.
+    induction l as [|x r IH]; intros t hd Hu Hn; cbn in *; [tauto|]. destruct Hu as (Hx & Hu).
+    split; [|apply IH; tauto]. rewrite map_app, in_app_iff. cbn. intros [H|[H|[]]]; [auto|]. apply Hn. left. congruence.
+  Qed.
+
+  Lemma uniq_trash : forall hd (l : list (K * N)), uniq l -> uniq (rs_trash K hd l).
+  Proof.
+    induction l as [|x r IH]; intros Hu; cbn in *; [exact I|]. destruct Hu as (Hx & Hu).
+    destruct (negb (N.eqb (snd x) hd)); cbn; [|auto]. split; [|auto].
+    intros H. apply Hx. apply in_map_iff in H. destruct H as (y & Hy & Hin).
+    apply rs_trash_In in Hin. apply in_map_iff. exists y. tauto.
+  Qed.
+
+  (** mediator protocol: at most one live event per handler *)
+  Definition lproto (rs : rsched) (o : op K) : Prop :=
+    match o with
+    | OpPush _ hd => ~ In hd (map snd (rs_live rs))
+    | OpTrash hd => In hd (map snd (rs_live rs))
+    | OpBump hd n => n = 0%N \/ ~ In hd (map snd (rs_live rs))
+    | _ => True
+    end.
+
+  Record LSim (ls : lsched) (rs : rsched) : Prop := {
+    lsim_times : ls_times ls = rs_live rs;
+    lsim_last : ls_last ls = rs_last rs;
+    lsim_uniq : uniq (rs_live rs)
+  }.
+
+  Lemma LSim_step : forall ls rs o, LSim ls rs -> lproto rs o ->
+    LSim (fst (ls_step ls o)) (fst (rs_step rs o)) /\ snd (ls_step ls o) = snd (rs_step rs o).
+  Proof.
+    intros [lt ll] [rl rlast] o [H1 H2 H3] Hp. cbn [ls_times ls_last rs_live rs_last] in *. subst lt ll.
+    destruct o as [t hd|hd| | |hd n]; cbn [lproto rs_live] in Hp.
+    - cbn. split; [|reflexivity]. constructor; cbn; auto. apply uniq_snoc; auto.
+    - cbn [Sched.ls_step Sched.rs_step ls_times ls_last rs_live rs_last].
+      rewrite (remove_first_uniq hd rl H3 Hp). cbn. split; [|reflexivity].
+      constructor; cbn; auto. apply uniq_trash; auto.
+    - cbn [Sched.ls_step Sched.rs_step Sched.ls_get ls_times ls_last rs_live rs_last].
+      destruct rl as [|x r]; [cbn; split; [constructor; auto|reflexivity]|].
+      unfold Sched.ls_get. cbn [ls_times ls_last]. cbv zeta. destruct (guard K ltb rlast (fst (list_min x r))); cbn [fst snd ls_times ls_last rs_live rs_last];
+        (split; [constructor; auto|reflexivity]).
+    - cbn. split; [constructor; auto|reflexivity].
+    - cbn [Sched.ls_step Sched.rs_step fst snd]. split; [|reflexivity].
+      constructor; cbn [ls_times ls_last rs_live rs_last]; auto.
+      + destruct Hp as [->|Hn]; [reflexivity|]. destruct (N.eqb n 0); [reflexivity|].
+        symmetry. apply rs_trash_notin; auto.
+      + destruct (N.eqb n 0); [auto|apply uniq_trash; auto].
+  Qed.
+
+  Theorem list_refines_ref : forall ops ls rs, LSim ls rs -> proto_run lproto rs ops ->
+    LSim (fst (ls_run ls ops)) (fst (rs_run rs ops)) /\ snd (ls_run ls ops) = snd (rs_run rs ops).
+  Proof.
+    induction ops as [|o r IH]; intros ls rs HL Hp.
+    - cbn. auto.
+    - destruct Hp as (Ho & Hr). destruct (LSim_step ls rs o HL Ho) as (HL1 & Ho1).
+      destruct (IH _ _ HL1 Hr) as (HL' & Houts).
+      rewrite ls_run_cons, rs_run_cons. cbn [fst snd]. split; [exact HL'|]. congruence.
+  Qed.
+
+  Lemma LSim_init : LSim (ls_init K bot) (rs_init K bot).
+  Proof. constructor; cbn; auto. Qed.
+
+  (** ** Corollaries from the initial states *)
+  Corollary reach_R : forall ops, Forall good_op ops ->
+    exists s outs, hs_run (hs_init K bot) ops = Some (s, outs) /\
+                   R s (rs_live (fst (rs_run (rs_init K bot) ops))) /\ length outs = length ops.
+  Proof. intros ops H. apply (hs_run_safe ops _ (rs_init K bot)); auto. apply R_init. Qed.
+
+  Lemma proto_run_and : forall (P Q : rsched -> op K -> Prop) ops rs,
+    proto_run (fun rs o => P rs o /\ Q rs o) rs ops -> proto_run P rs ops /\ proto_run Q rs ops.
+  Proof.
+    induction ops as [|o r IH]; intros rs H; cbn in *; [auto|].
+    destruct H as ((HP & HQ) & Hr). destruct (IH _ Hr). auto.
+  Qed.
+
+  (** All three schedulers agree: heap scheduler and reference up to equivalent (numerically equal)
+      times, list scheduler and reference literally. *)
+  Theorem refine_all : forall ops,
+    proto_run (fun rs o => proto rs o /\ lproto rs o) (rs_init K bot) ops ->
+    exists s outs_h, hs_run (hs_init K bot) ops = Some (s, outs_h) /\
+      Forall2 out_equiv outs_h (snd (rs_run (rs_init K bot) ops)) /\
+      snd (ls_run (ls_init K bot) ops) = snd (rs_run (rs_init K bot) ops).
+  Proof.
+    intros ops H. apply proto_run_and in H. destruct H as (HP & HL).
+    destruct (heap_refines_ref ops _ _ Sim_init HP) as (s & outs & Hrun & _ & Hall).
+    destruct (list_refines_ref ops _ _ LSim_init HL) as (_ & Hl).
+    exists s, outs. auto.
+  Qed.
+
+  (** The list scheduler never returns an infinite time while a finite live event exists. *)
+  Lemma ls_get_finite : forall ls, all_good (ls_times ls) ->
+    (exists x, In x (ls_times ls) /\ finite (fst x)) ->
+    forall hd t, snd (ls_get K ltb ls) = OGot hd t ->
+      finite t /\ In (t, hd) (ls_times ls) /\ forall y, In y (ls_times ls) -> le t (fst y).
+  Proof.
+    intros [l last] Hg (f & Hf & Hff) hd t. unfold ls_get. cbn [ls_times ls_last] in *.
+    destruct l as [|x r]; [destruct Hf|]. cbv zeta.
+    destruct (rs_min_spec x r Hg) as (Hm_in & Hm_min). cbv zeta in *.
+    destruct (guard K ltb last (fst (list_min x r))); cbn [snd]; [discriminate|].
+    intros E. inversion E; subst hd t.
+    split; [|split].
+    - apply (le_lt_trans _ (fst f) kinf); auto.
+    - destruct (list_min x r); exact Hm_in.
+    - exact Hm_min.
+  Qed.
+
+  Lemma ls_get_empty : forall last, snd (ls_get K ltb (mkLS [] last)) = OExc ExEmpty.
+  Proof. reflexivity. Qed.
+
 End SchedProofs.
+
+(** * The float instance: (quotient, remainder) pairs of binary64 with heap.c's comparison.
+
+    IEEE comparison is a strict weak order only away from NaN: [good_key] = no NaN component.
+    The order laws are proved by an order embedding of the non-NaN floats into Z^3 (class, exponent,
+    mantissa) read off [SpecFloat.SFcompare]; no real numbers are involved. *)
+From Coq Require Import ZArith.
+From Flocq Require Import Core.Core IEEE754.BinarySingleNaN.
+From Coq Require Import SpecFloat.
+Require Import JF.Base.F64 JF.Model.Time.
+Local Open Scope Z_scope.
+
+Definition lt3 (x y : Z * Z * Z) : Prop :=
+  let '(a, b, c) := x in let '(a', b', c') := y in
+  a < a' \/ (a = a' /\ (b < b' \/ (b = b' /\ c < c'))).
+
+Lemma lt3_irrefl : forall x, ~ lt3 x x.
+Proof. intros [[a b] c]; cbn; lia. Qed.
+Lemma lt3_trans : forall x y z, lt3 x y -> lt3 y z -> lt3 x z.
+Proof. intros [[a b] c] [[a' b'] c'] [[a'' b''] c'']; cbn; lia. Qed.
+Lemma lt3_tricho : forall x y, lt3 x y \/ x = y \/ lt3 y x.
+Proof.
+  intros [[a b] c] [[a' b'] c']; cbn.
+  destruct (Z.lt_trichotomy a a') as [H|[H|H]]; [lia| |lia].
+  destruct (Z.lt_trichotomy b b') as [H1|[H1|H1]]; [lia| |lia].
+  destruct (Z.lt_trichotomy c c') as [H2|[H2|H2]]; [lia| |lia].
+  right; left; congruence.
+Qed.
+
+Definition frank (x : f64) : Z * Z * Z :=
+  match x with
+  | B754_nan => (3, 0, 0)
+  | B754_infinity true => (-2, 0, 0)
+  | B754_infinity false => (2, 0, 0)
+  | B754_zero _ => (0, 0, 0)
+  | B754_finite true m e _ => (-1, - e, Zneg m)
+  | B754_finite false m e _ => (1, e, Zpos m)
+  end.
+
+Lemma flt_rank : forall x y, fisnan x = false -> fisnan y = false ->
+  (flt x y = true <-> lt3 (frank x) (frank y)).
+Proof.
+  intros x y Hx Hy. unfold flt, fcompare, Bcompare.
+  destruct x as [sx|sx| |sx mx ex Bx]; try discriminate;
+  destruct y as [sy|sy| |sy my ey By]; try discriminate;
+  try destruct sx; try destruct sy; cbn [B2SF SFcompare frank lt3];
+  try (split; [intros H; try discriminate; lia | intros H; try reflexivity; lia]).
+  - change (Pos.compare_cont Eq mx my) with (Pos.compare mx my).
+    destruct (Z.compare_spec ex ey) as [E|E|E]; destruct (Pos.compare_spec mx my) as [F|F|F];
+      cbn [CompOpp]; split; intros H; try discriminate; try reflexivity; try lia.
+  - change (Pos.compare_cont Eq mx my) with (Pos.compare mx my).
+    destruct (Z.compare_spec ex ey) as [E|E|E]; destruct (Pos.compare_spec mx my) as [F|F|F];
+      cbn [CompOpp]; split; intros H; try discriminate; try reflexivity; try lia.
+Qed.
+
+Lemma feq_rank : forall x y, fisnan x = false -> fisnan y = false ->
+  (feq x y = true <-> frank x = frank y).
+Proof.
+  intros x y Hx Hy. unfold feq, fcompare, Bcompare.
+  destruct x as [sx|sx| |sx mx ex Bx]; try discriminate;
+  destruct y as [sy|sy| |sy my ey By]; try discriminate;
+  try destruct sx; try destruct sy; cbn [B2SF SFcompare frank];
+  try (split; [intros H; try discriminate; try reflexivity; congruence | intros H; try reflexivity; try discriminate; congruence]).
+  - change (Pos.compare_cont Eq mx my) with (Pos.compare mx my).
+    destruct (Z.compare_spec ex ey) as [E|E|E]; destruct (Pos.compare_spec mx my) as [F|F|F];
+      cbn [CompOpp]; split; intros H; try discriminate; try reflexivity; try (inversion H; lia); try (subst; reflexivity).
+  - change (Pos.compare_cont Eq mx my) with (Pos.compare mx my).
+    destruct (Z.compare_spec ex ey) as [E|E|E]; destruct (Pos.compare_spec mx my) as [F|F|F];
+      cbn [CompOpp]; split; intros H; try discriminate; try reflexivity; try (inversion H; lia); try (subst; reflexivity).
+Qed.
+
+Definition good_key (k : fkey) : Prop := fisnan (fst k) = false /\ fisnan (snd k) = false.
+Definition krank (k : fkey) := (frank (fst k), frank (snd k)).
+Definition lt6 (a b : (Z*Z*Z) * (Z*Z*Z)) : Prop :=
+  lt3 (fst a) (fst b) \/ (fst a = fst b /\ lt3 (snd a) (snd b)).
+
+Lemma lt6_irrefl : forall x, ~ lt6 x x.
+Proof. intros [a b] [H|(_ & H)]; eapply lt3_irrefl; eauto. Qed.
+Lemma lt6_trans : forall x y z, lt6 x y -> lt6 y z -> lt6 x z.
+Proof.
+  intros [a b] [a' b'] [a'' b'']; unfold lt6; cbn [fst snd].
+  intros [H|(E & H)] [H'|(E' & H')]; subst.
+  - left; eapply lt3_trans; eauto.
+  - left; auto.
+  - left; auto.
+  - right; split; auto. eapply lt3_trans; eauto.
+Qed.
+Lemma lt6_tricho : forall x y, lt6 x y \/ x = y \/ lt6 y x.
+Proof.
+  intros [a b] [a' b']; unfold lt6; cbn [fst snd].
+  destruct (lt3_tricho a a') as [H|[H|H]]; auto.
+  destruct (lt3_tricho b b') as [H1|[H1|H1]]; subst; auto.
+Qed.
+
+Lemma fkey_lt_rank : forall a b, good_key a -> good_key b ->
+  (fkey_lt a b = true <-> lt6 (krank a) (krank b)).
+Proof.
+  intros [q1 r1] [q2 r2] (Hq1 & Hr1) (Hq2 & Hr2). cbn [fst snd] in *.
+  unfold fkey_lt, c_time_lt, lt6, krank. cbn [fst snd].
+  rewrite orb_true_iff, andb_true_iff.
+  rewrite (flt_rank q1 q2 Hq1 Hq2), (flt_rank r1 r2 Hr1 Hr2), (feq_rank q1 q2 Hq1 Hq2). reflexivity.
+Qed.
+
+Lemma fkey_asym : forall a b, good_key a -> good_key b -> fkey_lt a b = true -> fkey_lt b a = false.
+Proof.
+  intros a b Ha Hb H. apply (fkey_lt_rank a b Ha Hb) in H.
+  destruct (fkey_lt b a) eqn:E; [|reflexivity]. apply (fkey_lt_rank b a Hb Ha) in E.
+  exfalso. apply (lt6_irrefl (krank a)). eapply lt6_trans; eauto.
+Qed.
+
+Lemma fkey_le_trans : forall a b c, good_key a -> good_key b -> good_key c ->
+  fkey_lt b a = false -> fkey_lt c b = false -> fkey_lt c a = false.
+Proof.
+  intros a b c Ha Hb Hc H1 H2.
+  destruct (fkey_lt c a) eqn:E; [|reflexivity]. apply (fkey_lt_rank c a Hc Ha) in E. exfalso.
+  assert (N1 : ~ lt6 (krank b) (krank a)) by (intros X; apply (fkey_lt_rank b a Hb Ha) in X; congruence).
+  assert (N2 : ~ lt6 (krank c) (krank b)) by (intros X; apply (fkey_lt_rank c b Hc Hb) in X; congruence).
+  destruct (lt6_tricho (krank a) (krank b)) as [T1|[T1|T1]]; [| |contradiction];
+  destruct (lt6_tricho (krank b) (krank c)) as [T2|[T2|T2]]; try contradiction.
+  - apply (lt6_irrefl (krank a)). eapply lt6_trans; [|exact E]. eapply lt6_trans; eauto.
+  - rewrite <- T2 in E. apply (lt6_irrefl (krank a)). eapply lt6_trans; eauto.
+  - rewrite T1 in E. apply (lt6_irrefl (krank b)). eapply lt6_trans; eauto.
+  - rewrite T1, T2 in E. apply (lt6_irrefl _ E).
+Qed.
+
+Lemma fkey_bot_least : forall k, fkey_lt k fkey_bot = false.
+Proof.
+  intros [q r]. unfold fkey_lt, c_time_lt, fkey_bot. cbn [fst snd].
+  assert (H : forall x, flt x fninf = false).
+  { intros x. unfold flt, fcompare, Bcompare. destruct x as [[|]|[|]| |[|] m e B]; reflexivity. }
+  rewrite !H, andb_false_r. reflexivity.
+Qed.
+
+Lemma fkey_bot_good : good_key fkey_bot. Proof. split; reflexivity. Qed.
+Lemma fkey_inf_good : good_key fkey_inf. Proof. split; reflexivity. Qed.
